@@ -460,6 +460,7 @@ fn print_varied(vv: &Option<String>, recs: &[Rec], eol: &str, fnl: bool, seed: u
             }
             blocks.push(b);
         }
+        let mut ref_blocks: Vec<String> = vec![];
         for x in &r.refs {
             let mut b = String::new();
             match &x.xref {
@@ -478,6 +479,7 @@ fn print_varied(vv: &Option<String>, recs: &[Rec], eol: &str, fnl: bool, seed: u
             if let Some(v) = &x.link {
                 b += &format!("RL{}{}{}", blanks(&mut rng, 1, 2), v, eol);
             }
+            ref_blocks.push(b.clone());
             blocks.push(b);
         }
         // unobserved lines
@@ -507,10 +509,16 @@ fn print_varied(vv: &Option<String>, recs: &[Rec], eol: &str, fnl: bool, seed: u
             };
             blocks.push(b);
         }
-        // Fisher-Yates
+        // Fisher-Yates; reference blocks keep their relative order (it is observable)
         for i in (1..blocks.len()).rev() {
             let j = rng.below(i as u64 + 1) as usize;
             blocks.swap(i, j);
+        }
+        let pos: Vec<usize> = (0..blocks.len()).filter(|i| blocks[*i].starts_with("RN")).collect();
+        let mut refs_in_order: Vec<String> = pos.iter().map(|i| blocks[*i].clone()).collect();
+        refs_in_order.sort_by_key(|b| ref_blocks.iter().position(|x| x == b).unwrap_or(0));
+        for (i, b) in pos.iter().zip(refs_in_order.into_iter()) {
+            blocks[*i] = b;
         }
         for b in blocks {
             s += &b;
